@@ -390,7 +390,7 @@ func (env *SpecEnv) binary(x *ast.BinaryExpr) *Value {
 		return &Value{T: tBool, L: []*Term{Or(env.eval(x.X).One(), env.eval(x.Y).One())}}
 	}
 	a, b := env.eval(x.X), env.eval(x.Y)
-	if a.T == nil && b.T == nil && len(a.L) == 1 && len(b.L) == 1 && a.L[0].Sort == b.L[0].Sort {
+	if (a.T == nil || b.T == nil) && len(a.L) == 1 && len(b.L) == 1 && a.L[0].Sort == b.L[0].Sort {
 		// raw object identities
 		switch x.Op {
 		case token.EQL:
